@@ -1141,6 +1141,23 @@ class Frame:
                 else:
                     self.I.events.append(Event("del", [self.eval(_load(t), st)], {}, st.guards, s))
             return [(st, ("fall",))]
+        if (isinstance(s, ast.Try) and len(s.handlers) == 1 and not s.finalbody and isinstance(s.handlers[0].type, ast.Name) and s.handlers[0].type.id == "KeyError"
+                and len(s.body) == 1 and isinstance(s.body[0], (ast.Assign, ast.Expr, ast.Return, ast.AugAssign))):
+            # EAFP look-up: `try: x = d[k] ... except KeyError: ...` is `if k in d: ... else: ...` when the one thing in the
+            # body that can raise KeyError is one subscript read of a mapping
+            subs = [n for n in ast.walk(s.body[0]) if isinstance(n, ast.Subscript) and isinstance(n.ctx, ast.Load) and not isinstance(n.slice, (ast.Slice, ast.Tuple))]
+            callsin = [n for n in ast.walk(s.body[0]) if isinstance(n, ast.Call)]
+            if len(subs) == 1 and not callsin and not (s.handlers[0].name and any(isinstance(x, ast.Name) and x.id == s.handlers[0].name for b_ in s.handlers[0].body for x in ast.walk(b_))):
+                d_ = self.eval(subs[0].value, st)
+                k_ = self.eval(subs[0].slice, st)
+                g = known_truth(g_cmp("in", k_, d_), list(Event.prefix) + st.guards)
+                outs = []
+                if g != FALSE:
+                    outs.extend(self.exec_block(list(s.body) + list(s.orelse), st.fork(g) if g != TRUE else State(st.env, st.guards)))
+                ng = g_not(g)
+                if ng != FALSE:
+                    outs.extend(self.exec_block(s.handlers[0].body, st.fork(ng) if ng != TRUE else State(st.env, st.guards)))
+                return outs
         if isinstance(s, ast.Try) and not s.handlers and not s.orelse:
             # try ... finally (no handler): the body, then the clean-up on every way out of it; an outcome of the
             # clean-up other than falling through replaces the body's
